@@ -14,6 +14,11 @@ def load():
     return [e for e in data.get("open", [])]
 
 
+def load_all():
+    with open(PATH) as f:
+        return json.load(f)
+
+
 def _ops_of(rec, kind):
     return [o for o in rec.get("ops", []) if o.get("op") == kind]
 
@@ -49,3 +54,37 @@ PREDICATES = {}
 def predicate(f):
     PREDICATES[f.__name__] = f
     return f
+
+
+def _spec_ops(sp, acc):
+    if isinstance(sp, list) and sp and isinstance(sp[0], str):
+        acc.add(sp[0])
+        for a in sp[1:]:
+            _spec_ops(a, acc)
+    return acc
+
+
+@predicate
+def constraint_uses_ops(rec, res, m):
+    """some constraint added in the (minimised) history uses one of the given spec operators"""
+    ops = set()
+    for o in rec.get("ops", []):
+        if o.get("op") == "add":
+            for c in o.get("cs", []):
+                _spec_ops(c, ops)
+    return bool(ops & set(m["ops_any"]))
+
+
+@predicate
+def query_uses_ops(rec, res, m):
+    """the failing query's expression(s) use one of the given spec operators"""
+    k = (res.get("violation") or {}).get("detail", {}).get("op_index")
+    ops = set()
+    if k is not None and k < len(rec.get("ops", [])):
+        o = rec["ops"][k]
+        for f in ("e", "v"):
+            _spec_ops(o.get(f), ops)
+        for f in ("es", "extra"):
+            for c in o.get(f) or []:
+                _spec_ops(c, ops)
+    return bool(ops & set(m["ops_any"]))
